@@ -113,6 +113,7 @@ pub fn cases(args: &[String]) {
         let (outcome, outs, fin) = run(m, &ops);
         out.push(json!({"m": m, "ops": ops_json(&ops), "outcome": outcome, "outs": outs, "final": fin}));
     }
+    crate::util::wd_pause();
     println!("{}", json!({ "cases": out }));
 }
 
@@ -136,6 +137,7 @@ pub fn pick_cases(args: &[String]) {
         let idx = (xsi * nn as f64) as usize;
         out.push(json!([u, nn, idx as u64]));
     }
+    crate::util::wd_pause();
     println!("{}", json!({ "cases": out }));
 }
 
@@ -207,6 +209,28 @@ pub fn search(args: &[String]) {
             }
         }
     }
+    // sizes suggested by the driver (new literals of a changed source): a history of a few or of m + 3 draws, reset, 2m draws
+    let xs = crate::util::extra_sizes();
+    let mut sizes: Vec<u64> = Vec::new();
+    for s in &xs { for v in [s.saturating_sub(1), *s, s + 1, 2 * s + 1, s + s / 2 + 3, 4 * s + 1, 8 * s + 3, 16 * s + 5] { if v >= 1 && v <= 300_000 && !sizes.contains(&v) { sizes.push(v); } } }
+    for m64 in sizes.iter().take(40) {
+        let m = *m64 as usize;
+        for hist in [1usize, 3, m / 300 + 2, 40, m + 3] {
+            crate::util::tick_idx(0, json!({"m": m, "history": hist}));
+            let mut pre: Vec<Op> = Vec::new();
+            let mut cur = m;
+            for _ in 0..hist { if cur >= m { cur = 0; } pre.push(Op::Next(gen_u(&mut rng, (m - cur) as u64))); cur += 1; }
+            let us: Vec<u64> = (0..2 * m).map(|t| gen_u(&mut rng, (m - t % m) as u64)).collect();
+            tried += 1;
+            if found.len() < 2 {
+                if let Some(why) = property_fails(m, &pre, &us) {
+                    let short: String = why.chars().take(300).collect();
+                    found.push(json!({"m": m, "pre": format!("{} draws before the reset", hist), "us": us.iter().take(8).collect::<Vec<_>>(), "why": short}));
+                }
+            }
+        }
+    }
+    crate::util::wd_pause();
     println!("{}", json!({"tried": tried, "found": found}));
 }
 
@@ -252,5 +276,6 @@ pub fn large(args: &[String]) {
         if d != expect { wrong += 1; if rows.len() < 3 { rows.push(json!({"u": u, "draw": d, "floor_xsi_m": expect})); } }
         if d % 2 == 1 { odd += 1; }
     }
+    crate::util::wd_pause();
     println!("{}", json!({"m": m, "tried": n, "wrong": wrong, "odd_draws": odd, "examples": rows}));
 }
